@@ -2,10 +2,10 @@
 SPECIFICATION Spec
 CONSTANTS
   MaxLen = 4
-  Maxlines = {12, 13, 16, 20}
-  Indents = {3, 6}
+  Maxlines = {12, 13, 16}
+  Indents = {3}
   LinePos = {0, 5, 11}
-  EndSpaces = {0, 1, 3}
+  EndSpaces = {0, 3}
   Avoids = {FALSE, TRUE}
   Safe = TRUE
   AposKeep = TRUE
